@@ -37,6 +37,13 @@ def plan(tier, seed):
             ph = REAL_PHSP[(L + rep + c + p) % 3]
             cases.append({"cls": "RelativisticKMatrix", "n_ch": c, "n_poles": p, "L": L, "phsp": ph, "rep": rep,
                           "cost": 2 + (40 if c == 3 else 0)})
+    # poles below a channel threshold (closed channel at the pole mass): the phase-space factor given to
+    # formulate() must be the one that normalises the energy-dependent widths
+    for (c, p), rep in itertools.product(grid, range(reps)):
+        for L in Ls:
+            ph = "PhaseSpaceFactorAbs" if (L + rep) % 2 == 0 else REAL_PHSP[(rep + c + p) % 3]
+            cases.append({"cls": "RelativisticKMatrix", "n_ch": c, "n_poles": p, "L": L, "phsp": ph, "rep": rep, "sub": True,
+                          "cost": 2 + (40 if c == 3 else 0)})
     if tier == "quick":
         cases = [c for c in cases if not (c["n_ch"] == 2 and c["n_poles"] == 3 and c["L"] == 2 and c["rep"] == 1)]
     return cases
@@ -62,10 +69,15 @@ def _judge_t(rec, ctx, cls_name, T, n_ch, n_poles, kw):
     from vmon.refmodel.kmatrix import eval_matrix, eval_matrix_lambdify, random_env
     rng = ctx["case_rng"]
     n_s = 16
-    env, desc = random_env(rng, n_ch, n_poles, n_s)
+    sub = bool(ctx.get("case_sub")) and cls_name == "RelativisticKMatrix"
+    env, desc = random_env(rng, n_ch, n_poles, n_s, subthreshold=sub)
     L = kw.get("angular_momentum", 0)
     ph = getattr(kw.get("phsp_factor"), "__name__", None)
-    feats = {"cls": cls_name, "n_ch": n_ch, "n_poles": n_poles, "L": L, "phsp": ph}
+    below = desc["poles_below_a_threshold"] > 0
+    feats = {"cls": cls_name, "n_ch": n_ch, "n_poles": n_poles, "L": L, "phsp": ph, "pole_below_a_channel_threshold": below,
+             # Gamma(s) = Gamma0 (F/F0)^2 rho/rho0 is normalised at the pole mass: rho0 is imaginary there for the factors
+             # that continue analytically below threshold, and F0^2 = B_L^2(q0^2 d^2) is negative for odd L
+             "closed_channel_width_normalisation_not_positive": below and (ph != "PhaseSpaceFactorAbs" or L % 2 == 1)}
     rec.hit(f"judge:{cls_name}")
     Tn = eval_matrix(T, env, n_s)
     fin = np.isfinite(Tn).all()
@@ -74,7 +86,7 @@ def _judge_t(rec, ctx, cls_name, T, n_ch, n_poles, kw):
     if not fin:
         return
     tmax = float(np.abs(Tn).max())
-    rec.case((cls_name, n_ch, n_poles, L, ph), n_ch * n_poles >= 2 and tmax > 1e-3, cls=cls_name, n_channels=n_ch, n_poles=n_poles, L=L, phsp=ph)
+    rec.case((cls_name, n_ch, n_poles, L, ph, below), n_ch * n_poles >= 2 and tmax > 1e-3, cls=cls_name, n_channels=n_ch, n_poles=n_poles, L=L, phsp=ph, pole_below_a_channel_threshold=below)
     rec.sample(f"{cls_name}:{n_ch}x{n_poles}", {**wit, "L": L, "phsp": ph, "max|T|": tmax})
     s = desc["s"]
     dpole = np.min(np.abs(s[:, None] - desc["pole_masses"][None, :] ** 2), axis=1)
@@ -100,6 +112,7 @@ def run_case(case, rec, ctx):
     K = ctx["K"]
     ctx["case_rng"] = np.random.default_rng([ctx["seed"], 9, case["idx"]])
     cls = getattr(K, case["cls"])
+    ctx["case_sub"] = bool(case.get("sub"))
     if case["cls"] == "NonRelativisticKMatrix":
         cls.formulate(case["n_ch"], case["n_poles"])
     else:
